@@ -208,16 +208,23 @@ class Flattener:
         return g, recv
 
     # ---------------------------------------------------------------- inlining one call
-    def _expand(self, fn, call, g, recv, caller_names, want_value):
+    def _expand(self, fn, call, g, recv, caller_names, want_value, generator=False):
         gnode = self.flat_node(g)
         if any(d not in ("staticmethod", "classmethod") for d in g.decorators):
             raise CannotInline("decorated helper")
         a = gnode.args
         if a.vararg or a.kwarg or any(isinstance(x, ast.Starred) for x in call.args) or any(k.arg is None for k in call.keywords):
             raise CannotInline("star-arguments")
+        is_gen = any(isinstance(n, (ast.Yield, ast.YieldFrom)) for n in ast.walk(gnode))
+        if is_gen != generator:
+            raise CannotInline("generator helper" if is_gen else "not a generator")
         for n in ast.walk(gnode):
-            if isinstance(n, (ast.Yield, ast.YieldFrom, ast.Await, ast.Global, ast.Nonlocal)) or (isinstance(n, (ast.FunctionDef, ast.AsyncFunctionDef, ast.ClassDef)) and n is not gnode):
+            if isinstance(n, (ast.Await, ast.Global, ast.Nonlocal)) or (isinstance(n, (ast.FunctionDef, ast.AsyncFunctionDef, ast.ClassDef)) and n is not gnode):
                 raise CannotInline("helper contains %s" % type(n).__name__)
+            if generator and isinstance(n, ast.Return) and n.value is not None:
+                raise CannotInline("generator returns a value")
+            if generator and isinstance(n, ast.Yield) and not (isinstance(getattr(n, "_parent", None), ast.Expr)):
+                raise CannotInline("yield used as an expression")
         body = [s for s in gnode.body if not (isinstance(s, ast.Expr) and isinstance(s.value, ast.Constant) and isinstance(s.value.value, str))]
         if sum(1 for _ in ast.walk(gnode) if isinstance(_, ast.stmt)) > MAX_STMTS:
             raise CannotInline("helper too large")
@@ -349,6 +356,10 @@ class Flattener:
             if isinstance(st, (ast.FunctionDef, ast.AsyncFunctionDef, ast.ClassDef)):
                 out.append(st)
                 continue
+            fused = self._fuse_generator(fn, st, caller_names, out)
+            if fused is not None:
+                out += fused
+                continue
             pre_all = []
             for call in self._calls_in(st):
                 g, recv = self._resolve(fn, call)
@@ -373,6 +384,87 @@ class Flattener:
             if st is not None:
                 out.append(st)
         return out
+
+    def _fuse_generator(self, fn, st, caller_names, before):
+        """`for T in gen(args): BODY` / `yield from gen(args)` with gen a new generator helper -> the helper's
+        body with every `yield E` replaced by `T = E; BODY` (resp. left as a yield).  None when not applicable."""
+        call, target, body = None, None, None
+        if isinstance(st, ast.For) and not st.orelse:
+            it = st.iter
+            if isinstance(it, ast.Name):
+                # a local bound once to the generator call just before the loop and used nowhere else
+                prev = before[-1] if before else None
+                if isinstance(prev, ast.Assign) and len(prev.targets) == 1 and isinstance(prev.targets[0], ast.Name) and prev.targets[0].id == it.id and isinstance(prev.value, ast.Call):
+                    uses = sum(1 for x in ast.walk(fn.node) if isinstance(x, ast.Name) and x.id == it.id) if hasattr(fn, "node") else 99
+                    if uses <= 2:
+                        it = prev.value
+                        drop_prev = True
+                    else:
+                        return None
+                else:
+                    return None
+            else:
+                drop_prev = False
+            if not isinstance(it, ast.Call):
+                return None
+            call, target, body = it, st.target, st.body
+            # break / continue of this loop inside BODY cannot be expressed after fusion
+            def own_jumps(stmts):
+                for x in stmts:
+                    if isinstance(x, (ast.Break, ast.Continue)):
+                        return True
+                    if isinstance(x, (ast.For, ast.While, ast.FunctionDef, ast.AsyncFunctionDef, ast.ClassDef)):
+                        continue
+                    for fld in ("body", "orelse", "finalbody"):
+                        if own_jumps(getattr(x, fld, None) or []):
+                            return True
+                    for h in getattr(x, "handlers", []) or []:
+                        if own_jumps(h.body):
+                            return True
+                return False
+            if own_jumps(body):
+                return None
+        elif isinstance(st, ast.Expr) and isinstance(st.value, ast.YieldFrom) and isinstance(st.value.value, ast.Call):
+            call, drop_prev = st.value.value, False
+        else:
+            return None
+        g, recv = self._resolve(fn, call)
+        if g is None or g.qual == fn.qual:
+            return None
+        try:
+            if g.qual in self._active or len(self._active) > MAX_DEPTH:
+                raise CannotInline("recursion")
+            stmts, _ = self._expand(fn, call, g, recv, caller_names, False, generator=True)
+        except CannotInline as e:
+            self.refused.append((fn.qual, g.qual, str(e)))
+            return None
+        if body is not None:
+            def subst(lst):
+                res = []
+                for x in lst:
+                    if isinstance(x, ast.Expr) and isinstance(x.value, ast.Yield):
+                        v = x.value.value if x.value.value is not None else ast.copy_location(ast.Constant(value=None), x)
+                        res.append(ast.copy_location(ast.Assign(targets=[_clone(target)], value=v, lineno=x.lineno), x))
+                        res.extend(_clone(body))
+                        continue
+                    if isinstance(x, ast.Expr) and isinstance(x.value, ast.YieldFrom):
+                        inner = ast.copy_location(ast.For(target=_clone(target), iter=x.value.value, body=_clone(body), orelse=[]), x)
+                        res.append(inner)
+                        continue
+                    for fld in ("body", "orelse", "finalbody"):
+                        sub = getattr(x, fld, None)
+                        if isinstance(sub, list) and sub and isinstance(sub[0], ast.stmt):
+                            setattr(x, fld, subst(sub))
+                    for h in getattr(x, "handlers", []) or []:
+                        h.body = subst(h.body)
+                    res.append(x)
+                return res
+            stmts = subst(stmts)
+            stmts, _ = _desugar_body(stmts)  # (a, b) = (x, y) produced by the substitution
+        caller_names |= {n.id for s_ in stmts for n in ast.walk(s_) if isinstance(n, ast.Name)}
+        if drop_prev:
+            before.pop()
+        return stmts
 
     def flat_node(self, fn):
         if fn.qual in self._done:
